@@ -4,6 +4,10 @@ R-C06-1  the five witness guards dominate the prover's Ok, each for every elemen
          length (with the 64 / shift-by-bit-length constants), opening reproduces its commitment, promise <= value (checked_sub) with
          the decomposition consuming the difference
 R-C06-2  no other rejection depends on the witness's integers or scalars (no hidden rejection of valid witnesses)
+R-C06-3  (= R-C17-1 for PedersenGens::commit) the commitment function, whose failure the prover hands on, accepts exactly 1..=degree factors
+R-C06-4  (= R-C17-1 / R-C17-3 for RangeWitness::init, CommitmentOpening::r_len / ::new) the witness constructors establish what the
+         prover's extension-degree guard relies on: every opening is compared with the first, the stored degree is that length, the
+         stored openings are the caller's
 """
 from bpsa.facts import callee_decl, callee_name
 from bpsa.normal import canon
@@ -14,7 +18,7 @@ from . import msm
 LEVEL_TEXT = ('Static analysis (guard normal forms on MIR dominators + witness taint of guard conditions). Decides that the prover\'s success exit is '
               'protected, for every opening / commitment / promise, by exactly the five documented witness checks with the right constants, and that '
               'the bit decomposition consumes value minus promise; `PedersenGens::commit`, whose failure the prover hands on, accepts exactly 1..=degree '
-              'blinding factors. Does not decide that a returned proof verifies (completeness, C01).')
+              'blinding factors; the witness constructors compare every opening's blinding length with the stored degree. Does not decide that a returned proof verifies (completeness, C01).')
 ASSUMPTIONS = ['u64::checked_sub, >> and comparison behave as documented', 'PedersenGens::commit is the commitment function of the statement\'s generators (C17 checks its own guards)']
 RULE_TEXT = ('one obligation per expected guard (shape, quantifier, constants, effectiveness) and one per witness-dependent rejecting guard found; '
              'non-trivial = decided from a guard term')
